@@ -354,3 +354,18 @@ Proof.
   assert (HL : forall t, holding (pcs s t) = true -> In t hs) by (intros t Ht; now apply Hin).
   pose proof (bounded_run sg hs tr' s s' I HL F R). lia.
 Qed.
+
+(* ---------- the tag (Pool key / Merge object / registry tag) depends on the digest only ---------- *)
+
+(* an event of a caller whose manifest names the subject by descriptor [sd] acts on the
+   component selected by buildReferrersTag *)
+Definition sstep (sg : bool) (S : gstate) (se : subject * event) : option gstate :=
+  gstep sg S (N.to_nat (tag_of (fst se)), snd se).
+
+Lemma tag_by_digest a b :
+  s_digest a = s_digest b ->
+  tag_of a = tag_of b /\ forall sg S e, sstep sg S (a, e) = sstep sg S (b, e).
+Proof. unfold sstep, tag_of. simpl. intros ->. auto. Qed.
+
+Lemma tag_distinct a b : s_digest a <> s_digest b -> tag_of a <> tag_of b.
+Proof. unfold tag_of. auto. Qed.
